@@ -277,6 +277,23 @@ structure Start where
   prelude : Nat
 deriving Repr
 
+/-- the head of the first `encode_data` call: magic block if `magic_number`, then,
+if catable and there is input, an uncompressed meta-block with the first
+`min(2, n)` bytes.  Returns the writer and the number of input bytes stored. -/
+def encodeDataHead (p : Params) (input : List Nat) (w : Writer) : Out (Writer × Nat) :=
+  (if p.magicNumber then writeMetadataMetaBlock p w else ok w).bind fun w1 =>
+  let k := if p.catable then min 2 input.length else 0
+  (if k ≠ 0 then storeUncompressedMetaBlock false (input.take k) w1 else ok w1).bind fun w2 =>
+  ok (w2, k)
+
+/-- if no input is left for the payload coder the stream is closed by the empty
+last meta-block (`compress_fragment_*` with `input_size = 0`, or
+`WriteMetaBlockInternal` with `bytes = 0`: both write bits `1,1` and pad) -/
+def closeIfDone (w : Writer) (left : Nat) (magic : Bool) (k : Nat) : Out Start :=
+  if left = 0 then
+    (writeEmptyLastMetaBlock w).bind fun w => ok { bits := w, whole := true, magic := magic, prelude := k }
+  else ok { bits := w, whole := false, magic := magic, prelude := k }
+
 /-- `compress_stream(FINISH)` on a fresh encoder with the whole `input` (shorter
 than one input block) available: the payload-independent beginning.
 
@@ -292,18 +309,10 @@ def streamStart (largeOk : Bool) (p0 : Params) (input : List Nat) : Out Start :=
   let p := i.params
   let w := pendingWriter i
   if (p.quality = 0 ∨ p.quality = 1) ∧ ¬ p.catable ∧ ¬ p.magicNumber then
-    if input.isEmpty then do
-      let w ← writeEmptyLastMetaBlock w
-      ok { bits := w, whole := true, magic := false, prelude := 0 }
-    else ok { bits := w, whole := false, magic := false, prelude := 0 }
-  else do
+    closeIfDone w input.length false 0
+  else
     let p := { p with sizeHint := updateSizeHint p.sizeHint input.length 0 }
-    let w ← if p.magicNumber then writeMetadataMetaBlock p w else ok w
-    let k := if p.catable then min 2 input.length else 0
-    let w ← if k ≠ 0 then storeUncompressedMetaBlock false (input.take k) w else ok w
-    if input.length = k then do
-      let w ← writeEmptyLastMetaBlock w
-      ok { bits := w, whole := true, magic := p.magicNumber, prelude := k }
-    else ok { bits := w, whole := false, magic := p.magicNumber, prelude := k }
+    (encodeDataHead p input w).bind fun r =>
+    closeIfDone r.1 (input.length - r.2) p.magicNumber r.2
 
 end BV.Header
